@@ -517,9 +517,14 @@ package sizes
 //@   pure
 //@   ensures result == g.historySize
 
+// --names=none / hash / full select the resolver; the full resolver starts
+// with its object invariant (nothing sought).
 //@ func NewPathResolver
 //@   requires nameStyle >= 0 && nameStyle <= 2
 //@   pure
+//@   ensures nameStyle == 0 ==> dyntype(result, "sizes.NullPathResolver") && !unbox(result, "sizes.NullPathResolver").useHash
+//@   ensures nameStyle == 1 ==> dyntype(result, "sizes.NullPathResolver") && unbox(result, "sizes.NullPathResolver").useHash
+//@   ensures nameStyle == 2 ==> dyntype(result, "*sizes.InOrderPathResolver") && wfResolver(unbox(result, "*sizes.InOrderPathResolver"))
 
 //@ func NewGraph
 //@   requires nameStyle >= 0 && nameStyle <= 2
@@ -650,3 +655,113 @@ package sizes
 //@ property C10: CollectReferences
 //@ axiom root_refroot [definition]: forall r Iface :: dyntype(r, "sizes.RefRoot") ==> rootWalk(r) == unbox(r, "sizes.RefRoot").walk && rootOID(r) == unbox(r, "sizes.RefRoot").ref.OID
 //@ axiom root_explicit [definition]: forall r Iface :: dyntype(r, "sizes.ExplicitRoot") ==> rootWalk(r) && rootOID(r) == unbox(r, "sizes.ExplicitRoot").oid
+
+// ---------------------------------------------------------------- path_resolver.go: bookkeeping (C08)
+// Object invariant of InOrderPathResolver (A-OBJ-INV): every path that is still
+// sought is registered under its own object id and has no name yet. It is
+// established by NewPathResolver, preserved by every method (postconditions
+// below) and holds at every method entry because nothing else writes the
+// state it speaks about (structural/resolver-encapsulation). The methods are
+// reached through the PathResolver interface, whose callers cannot state it;
+// hence it is an assumed precondition, by name.
+// A-SEEKERS: fewer than 255 seekers per path (one per maximum that cites the
+// object plus one per sought child), and ForgetPath only on a path that was
+// requested. A-GIT-OID-TYPE: an object id has one type.
+//@ spec wfResolver(pr *InOrderPathResolver) bool = forall o OID :: has(pr.soughtPaths, o) ==> (pr.soughtPaths[o] != nil && pr.soughtPaths[o].OID == o && pr.soughtPaths[o].parent == nil && len(pr.soughtPaths[o].relativePath) == 0)
+
+//@ func (*InOrderPathResolver).requestPathLocked
+//@   option heap-order
+//@   requires @assume:A-OBJ-INV wfResolver(pr)
+//@   requires @assume:A-SEEKERS has(pr.soughtPaths, oid) ==> pr.soughtPaths[oid].seekerCount < 255
+//@   requires @assume:A-GIT-OID-TYPE has(pr.soughtPaths, oid) ==> pr.soughtPaths[oid].objectType == objectType
+//@   modifies map(pr.soughtPaths), fieldmem(Path.seekerCount)
+//@   ensures wfResolver(pr)
+//@   ensures result != nil && result.OID == oid && result.objectType == objectType && has(pr.soughtPaths, oid) && pr.soughtPaths[oid] == result
+//@   ensures old(has(pr.soughtPaths, oid)) ==> result == old(pr.soughtPaths[oid]) && result.seekerCount == old(pr.soughtPaths[oid].seekerCount) + 1
+//@   ensures !old(has(pr.soughtPaths, oid)) ==> fresh(result) && result.seekerCount == 1 && result.parent == nil && len(result.relativePath) == 0
+//@   ensures forall o OID :: o != oid ==> has(pr.soughtPaths, o) == old(has(pr.soughtPaths, o)) && pr.soughtPaths[o] == old(pr.soughtPaths[o])
+
+//@ func (*InOrderPathResolver).RequestPath
+//@   requires @assume:A-OBJ-INV wfResolver(pr)
+//@   requires @assume:A-SEEKERS has(pr.soughtPaths, oid) ==> pr.soughtPaths[oid].seekerCount < 255
+//@   requires @assume:A-GIT-OID-TYPE has(pr.soughtPaths, oid) ==> pr.soughtPaths[oid].objectType == objectType
+//@   modifies map(pr.soughtPaths), fieldmem(Path.seekerCount)
+//@   ensures wfResolver(pr)
+//@   ensures result != nil && result.OID == oid && result.objectType == objectType && has(pr.soughtPaths, oid) && pr.soughtPaths[oid] == result
+
+// A name for the object: the sought path gets exactly this name and is no
+// longer sought (so the first name recorded is the one that is kept); nothing
+// happens when nobody asked.
+//@ func (*InOrderPathResolver).RecordName
+//@   requires @assume:A-OBJ-INV wfResolver(pr)
+//@   modifies map(pr.soughtPaths), fieldmem(Path.relativePath)
+//@   ensures wfResolver(pr)
+//@   ensures old(has(pr.soughtPaths, oid)) ==> same(old(pr.soughtPaths[oid]).relativePath, name) && old(pr.soughtPaths[oid]).parent == nil && !has(pr.soughtPaths, oid)
+//@   ensures !old(has(pr.soughtPaths, oid)) ==> unchanged_all()
+//@   ensures forall o OID :: o != oid ==> has(pr.soughtPaths, o) == old(has(pr.soughtPaths, o)) && pr.soughtPaths[o] == old(pr.soughtPaths[o])
+
+// "tree `oid` has an entry `name` -> childOID": a sought child is named
+// <path of the tree `oid`> + name, the tree's own path becomes sought (or gets
+// one more seeker), and the child is no longer sought.
+//@ func (*InOrderPathResolver).RecordTreeEntry
+//@   requires @assume:A-OBJ-INV wfResolver(pr)
+//@   requires @assume:A-SEEKERS has(pr.soughtPaths, oid) ==> pr.soughtPaths[oid].seekerCount < 255
+//@   requires @assume:A-GIT-OID-TYPE has(pr.soughtPaths, oid) ==> pr.soughtPaths[oid].objectType == "tree"
+//@   requires @assume:A-GIT-OID-TYPE oid != childOID
+//@   modifies map(pr.soughtPaths), fieldmem(Path.seekerCount), fieldmem(Path.parent), fieldmem(Path.relativePath)
+//@   ensures wfResolver(pr)
+//@   ensures old(has(pr.soughtPaths, childOID)) ==> !has(pr.soughtPaths, childOID) && same(old(pr.soughtPaths[childOID]).relativePath, name)
+//@   ensures old(has(pr.soughtPaths, childOID)) ==> old(pr.soughtPaths[childOID]).parent != nil && old(pr.soughtPaths[childOID]).parent.OID == oid && old(pr.soughtPaths[childOID]).parent.objectType == "tree" && has(pr.soughtPaths, oid) && pr.soughtPaths[oid] == old(pr.soughtPaths[childOID]).parent
+//@   ensures !old(has(pr.soughtPaths, childOID)) ==> unchanged_all()
+
+// "commit `oid` has the root tree `tree`": a sought tree gets the commit as
+// its parent and an empty relative path (rendered <commit>^{tree}).
+//@ func (*InOrderPathResolver).RecordCommit
+//@   requires @assume:A-OBJ-INV wfResolver(pr)
+//@   requires @assume:A-SEEKERS has(pr.soughtPaths, oid) ==> pr.soughtPaths[oid].seekerCount < 255
+//@   requires @assume:A-GIT-OID-TYPE has(pr.soughtPaths, oid) ==> pr.soughtPaths[oid].objectType == "commit"
+//@   requires @assume:A-GIT-OID-TYPE oid != tree
+//@   modifies map(pr.soughtPaths), fieldmem(Path.seekerCount), fieldmem(Path.parent), fieldmem(Path.relativePath)
+//@   ensures wfResolver(pr)
+//@   ensures old(has(pr.soughtPaths, tree)) ==> !has(pr.soughtPaths, tree) && len(old(pr.soughtPaths[tree]).relativePath) == 0
+//@   ensures old(has(pr.soughtPaths, tree)) ==> old(pr.soughtPaths[tree]).parent != nil && old(pr.soughtPaths[tree]).parent.OID == oid && old(pr.soughtPaths[tree]).parent.objectType == "commit" && has(pr.soughtPaths, oid) && pr.soughtPaths[oid] == old(pr.soughtPaths[tree]).parent
+//@   ensures !old(has(pr.soughtPaths, tree)) ==> unchanged_all()
+
+//@ func (*InOrderPathResolver).RecordTag
+//@   pure
+
+// One seeker less; a path nobody wants any more releases its parent (one
+// level: the recursive call is used through this contract) or stops being
+// sought. Names already found are never changed.
+//@ func (*InOrderPathResolver).forgetPathLocked
+//@   requires @assume:A-OBJ-INV wfResolver(pr)
+//@   requires @assume:A-SEEKERS p != nil && p.seekerCount > 0
+//@   modifies map(pr.soughtPaths), fieldmem(Path.seekerCount)
+//@   ensures wfResolver(pr)
+//@   ensures old(p.seekerCount) > 1 ==> p.seekerCount == old(p.seekerCount) - 1 && (forall o OID :: has(pr.soughtPaths, o) == old(has(pr.soughtPaths, o)) && pr.soughtPaths[o] == old(pr.soughtPaths[o]))
+//@   ensures forall o OID :: has(pr.soughtPaths, o) ==> old(has(pr.soughtPaths, o)) && pr.soughtPaths[o] == old(pr.soughtPaths[o])
+
+//@ func (*InOrderPathResolver).ForgetPath
+//@   requires @assume:A-OBJ-INV wfResolver(pr)
+//@   requires @assume:A-SEEKERS p != nil && p.seekerCount > 0
+//@   modifies map(pr.soughtPaths), fieldmem(Path.seekerCount)
+//@   ensures wfResolver(pr)
+
+// --names=hash: a path that carries the id and kind and never gets a name;
+// --names=none: no path at all ("no object is cited").
+//@ func (NullPathResolver).RequestPath
+//@   pure
+//@   ensures n.useHash ==> result != nil && fresh(result) && result.OID == oid && result.objectType == objectType && result.parent == nil && len(result.relativePath) == 0
+//@   ensures !n.useHash ==> result == nil
+//@ func (NullPathResolver).ForgetPath
+//@   pure
+//@ func (NullPathResolver).RecordName
+//@   pure
+//@ func (NullPathResolver).RecordTreeEntry
+//@   pure
+//@ func (NullPathResolver).RecordCommit
+//@   pure
+//@ func (NullPathResolver).RecordTag
+//@   pure
+
+//@ property C08: (*InOrderPathResolver).requestPathLocked (*InOrderPathResolver).RequestPath (*InOrderPathResolver).RecordName (*InOrderPathResolver).RecordTreeEntry (*InOrderPathResolver).RecordCommit (*InOrderPathResolver).RecordTag (*InOrderPathResolver).forgetPathLocked (*InOrderPathResolver).ForgetPath (NullPathResolver).RequestPath (NullPathResolver).ForgetPath (NullPathResolver).RecordName (NullPathResolver).RecordTreeEntry (NullPathResolver).RecordCommit (NullPathResolver).RecordTag NewPathResolver structural/resolver-encapsulation
